@@ -275,6 +275,12 @@ class RealRO:
             # dro.Model.do_math): one scenario, no ambiguity set
             from rsome import dro
             self.m = dro.Model()
+        elif front == 'gcp':
+            # the conic model class used on its own (rsome.gcp.Model: the class of ro.Model's compiled model and of the
+            # shared set models): affine objective only, so the epigraph variable t is the model's first variable
+            from rsome import gcp
+            self.m = gcp.Model()
+            self.t = self.m.dvar()
         else:
             self.m = ro.Model()
         self.dvars, self.rvars, self.ldrs = [], [], []
@@ -438,12 +444,23 @@ class RealRO:
                 c = c.forall(*sets)
         r = self.m.st(c)
         self.st_returns.append(r)
+        if self.style.get('reformulate_each_st'):
+            # history (real side only): the model is formulated after every st() call
+            from .util import quiet
+            with quiet():
+                self.m.do_math()
         return r
 
     def min(self, e):
+        if self.front == 'gcp':
+            self.st(e - self.t <= 0)
+            return self.m.min(self.t)
         self.m.min(e)
 
     def max(self, e):
+        if self.front == 'gcp':
+            self.st((-e) - self.t <= 0)
+            return self.m.min(self.t)
         self.m.max(e)
 
     def minmax(self, e, uset):
@@ -474,6 +491,19 @@ class RealRO:
                         names[p_name(p)] = _col(v, n)
             finally:
                 rc.solution, self.m.solution = keep
+            return names
+        if self.front == 'gcp':
+            keep = self.m.solution
+            self.m.solution = sol
+            try:
+                names = {}
+                for k, x in enumerate(self.dvars):
+                    vals = np.array(x.get()).reshape(-1)
+                    base = pvars('x%d' % k, x.shape).reshape(-1)
+                    for p, v in zip(base, vals):
+                        names[p_name(p)] = _col(v, n)
+            finally:
+                self.m.solution = keep
             return names
         keep = (self.m.rc_model.solution, self.m.solution)
         self.m.rc_model.solution = sol
